@@ -47,6 +47,7 @@ TARGETS = [
     ("rich/file_proxy.py", "FileProxy", "write"),
     ("rich/file_proxy.py", "FileProxy", "flush"),
 ]
+TABLE_METHODS = {(c, m) for _, c, m in TARGETS}
 KEY_CLASS = {("rich/live.py", "_RefreshThread"): "LiveRefreshThread",
              ("rich/progress.py", "_RefreshThread"): "ProgressRefreshThread"}
 
@@ -86,6 +87,32 @@ STATIC = {
 }
 
 
+def positive_test(test):
+    """-> (source of the positive form, was it negated?)"""
+    flipped = False
+    while True:
+        if isinstance(test, ast.UnaryOp) and isinstance(test.op, ast.Not):
+            test, flipped = test.operand, not flipped
+            continue
+        if isinstance(test, ast.Compare) and len(test.ops) == 1 and isinstance(test.ops[0], (ast.IsNot, ast.NotEq)):
+            op = ast.Is() if isinstance(test.ops[0], ast.IsNot) else ast.Eq()
+            test = ast.Compare(left=test.left, ops=[op], comparators=test.comparators)
+            flipped = not flipped
+            continue
+        return ast.unparse(test), flipped
+
+
+def relevant(fn):
+    """does this function mention anything the event table is about?"""
+    for n in ast.walk(fn):
+        if isinstance(n, ast.Attribute) and (n.attr in LOCKS or n.attr in SHARED or n.attr in LOCALS or n.attr in CALLS
+                                             or n.attr in ("write", "_refresh_thread", "acquire", "release")):
+            return True
+        if isinstance(n, ast.With):
+            return True
+    return False
+
+
 def q(s):
     return '"' + s.replace('"', '""') + '"'
 
@@ -97,6 +124,8 @@ class Extract:
         self.fname = fname
         self.jumps = 0
         self.early = None
+        self.inlining = []
+        self.cls_name = cls
         self.alias = {}          # local name -> ("call", key) | ("local", f) | ("shared-mut", f)
 
     # ---- helpers
@@ -110,6 +139,8 @@ class Extract:
         return RECEIVERS.get(src)
 
     def lock_name(self, node):
+        if isinstance(node, ast.Name) and self.alias.get(node.id, ("", ""))[0] == "lock":
+            return self.alias[node.id][1]
         if isinstance(node, ast.Attribute) and node.attr in LOCKS:
             c = self.recv_class(node.value)
             if c is None:
@@ -178,6 +209,30 @@ class Extract:
                     out.append(f"Call {q(what)}")
                 elif kind == "local":
                     out.append(f"Local {q(what)}")
+                elif kind == "write":
+                    out.append("Write")
+                elif kind == "lock":
+                    raise Untranslatable(f"{self.fname}:{node.lineno} call of a lock alias")
+                return
+            # a helper method of the same class that is not a table entry: its events are part of
+            # this method's events (extracting a block into a private method changes nothing)
+            if (isinstance(f, ast.Attribute) and isinstance(f.value, ast.Name) and f.value.id == "self"
+                    and f.attr in self.classes.get("methods", {}) and f.attr not in CALLS
+                    and (self.cls_name, f.attr) not in TABLE_METHODS):
+                fn = self.classes["methods"][f.attr]
+                for a in node.args:
+                    self.expr(a, out)
+                for k in node.keywords:
+                    self.expr(k.value, out)
+                if relevant(fn):
+                    if f.attr in self.inlining or len(self.inlining) > 4:
+                        raise Untranslatable(f"{self.fname}:{node.lineno} recursive helper {f.attr}")
+                    self.inlining.append(f.attr)
+                    saved_alias, self.alias = self.alias, {}
+                    body = [b for b in fn.body if not (isinstance(b, ast.Expr) and isinstance(b.value, ast.Constant))]
+                    out += self.block(body)
+                    self.alias = saved_alias
+                    self.inlining.pop()
                 return
             # generic call
             self.expr(f, out)
@@ -230,18 +285,20 @@ class Extract:
                 th = self.block(self._strip_return(s.body))
                 el = self.block(list(s.orelse) + rest)
                 out += self.branch(s.test, th, el)
-                self.early = src
+                self.early = s.test
                 return out
             if isinstance(s, ast.With):
                 self.early = None
                 out += self.stmt(s)
                 if self.early is not None and rest:
                     # `with lock: if c: return` -- what follows the with runs only when c was false
-                    label = self.early
+                    test = self.early
                     self.early = None
                     after = self.block(rest)
                     if after:
-                        out.append(f"If {q(label)} [] [{'; '.join(after)}]")
+                        pos, flipped = positive_test(test)   # returned when `test` was true
+                        th, el = ([], after) if not flipped else (after, [])
+                        out.append(f"If {q(pos)} [{'; '.join(th)}] [{'; '.join(el)}]")
                     return out
                 i += 1
                 continue
@@ -270,7 +327,15 @@ class Extract:
         src = ast.unparse(test)
         if src in STATIC:
             return pre + (th if STATIC[src] else el)
-        return pre + [f"If {q(src)} [{'; '.join(th)}] [{'; '.join(el)}]"]
+        # normal form of the test: `not X`, `a is not b`, `a != b` become the positive test with the
+        # arms swapped, so that swapping if/else (or negating the condition) does not change the table
+        pos, flipped = positive_test(test)
+        if pos in STATIC:
+            val = STATIC[pos] != flipped
+            return pre + (th if val else el)
+        if flipped:
+            th, el = el, th
+        return pre + [f"If {q(pos)} [{'; '.join(th)}] [{'; '.join(el)}]"]
 
     def stmt(self, s):
         out = []
@@ -330,8 +395,10 @@ class Extract:
                     self.alias[s.targets[0].id] = ("call", f"{self.recv_class(v.value)}.{v.attr}")
                 elif v.attr in MUTATORS and isinstance(v.value, ast.Attribute) and v.value.attr in LOCALS:
                     self.alias[s.targets[0].id] = ("local", v.value.attr)
-                elif v.attr == "write":
-                    raise Untranslatable(f"{self.fname}:{s.lineno} aliasing of file.write")
+                elif v.attr == "write" and isinstance(v.value, ast.Attribute) and v.value.attr == "file":
+                    self.alias[s.targets[0].id] = ("write", None)     # write = self.file.write
+                elif v.attr in LOCKS and self.lock_name(v):
+                    self.alias[s.targets[0].id] = ("lock", self.lock_name(v))   # lock = self._lock
             for t in s.targets:
                 self.target(t, out)
             return out
@@ -425,9 +492,18 @@ def gen_console_lock(repo):
         tree = trees[fname]
         cnode = find_class(tree, cls)
         fn = find_func(cnode.body, meth)
-        classes = {}
+        classes = {"methods": {n.name: n for n in cnode.body if isinstance(n, ast.FunctionDef)}}
+        for base in cnode.bases:      # inherited helpers (same file)
+            try:
+                bnode = find_class(tree, ast.unparse(base))
+                for n in bnode.body:
+                    if isinstance(n, ast.FunctionDef):
+                        classes["methods"].setdefault(n.name, n)
+            except Untranslatable:
+                pass
         key_cls = KEY_CLASS.get((fname, cls), cls)
         ex = Extract(key_cls, classes, fname)
+        ex.cls_name = cls
         if key_cls == "LiveRefreshThread":
             ex.recv_class = lambda node, _o=ex.recv_class: ("LiveRefreshThread" if ast.unparse(node) == "self" else _o(node))
         body = [b for b in fn.body if not (isinstance(b, ast.Expr) and isinstance(b.value, ast.Constant))]
